@@ -9,7 +9,7 @@
 EXTENDS Integers, Sequences, FiniteSets, TLC
 
 UriCfgs  == {"none", "empty1", "one", "two"}          \* no URIs, [""], ["/a"], ["/a", "/b?x=1"]
-RespCfgs == {"none", "plain", "colon"}                \* response header: none, "X-Resp: r1", "Location: http://h:80/p"
+RespCfgs == {"none", "plain", "colon", "nospace"}     \* response header: none, "X-Resp: r1", "Location: http://h:80/p", "X-Frame-Options:DENY" + "X-Tab:<tab>v"
 Methods  == {"POST", "GET", "PUT"}
 Paths    == {"/a", "/b?x=1", "/b", "/zzz", "/a?q=1"}
 PlainReq == {"ok", "wrong", "absent", "lowername"}    \* request header X-Plain: right value / other value / missing / name in lower case
